@@ -181,6 +181,35 @@ def gen_case(rng, kind, consts):
             dt = rng.choice([0, 1, S])
         now += dt
 
+    if kind == "status":
+        # few contacts, long per-contact histories: answers, hearsay, queries sent and received around the 15 min / 30 s
+        # boundaries (ageing, unanswered-query counters, resets)
+        hs = [new_handle() for _ in range(rng.range(1, 4))]
+        for idv, a in hs:
+            c.ops.append(("OFFER", now, rng.chance(1, 2), idv, a))
+        for _ in range(rng.range(30, 90)):
+            r = rng.below(16)
+            if r < 7:
+                now += rng.choice([0, 1, S, 5 * S, 40 * S])
+            elif r < 13:
+                now += rng.choice(bounds) + rng.choice([-S, -1, 0, 1, S, 60 * S])
+            else:
+                now += rng.below(40 * 60 * S)
+            idv, a = rng.choice(hs)
+            r = rng.below(12)
+            if r < 3:
+                c.ops.append(("OFFER", now, True, idv, a))       # it answered
+            elif r < 4:
+                c.ops.append(("OFFER", now, False, idv, a))      # somebody named it
+            elif r < 8:
+                c.ops.append(("LREQ", now, idv, a))
+            elif r < 10:
+                c.ops.append(("RREQ", now, idv, a))
+            else:
+                c.ops.append(("CLOSEST", now, idv))
+            c.ops.append(("DUMP", now))
+            c.ops.append(("CONTACTS", now))
+        return c
     n_ops = rng.range(40, 110) if kind != "deep" else rng.range(60, 140)
     deep_prefix = rng.range(3, 150)
     for _ in range(n_ops):
